@@ -126,6 +126,99 @@ theorem C13_new_start_reparse (parse : String → Option String)
     ⟨fun h => absurd rfl h, fun h => absurd rfl h, fun hk => by simp [hk, messageTypes]⟩
   exact C13_start_inverse parse k v inv.1 inv.2.1 inv.2.2
 
+/-! ### The struct-tag path agrees with the token path (start elements) -/
+
+/-- the iq types read from the source are the model's -/
+theorem C13_gen_iq_types : Generated.C13.iqTypes = some iqTypes := by decide
+
+/-- the struct definitions the model of the struct-tag path (`marshalAttrs`, `reflectNew`) is
+written for: field order, field types and `xml` tags of the three stanza types -/
+theorem C13_gen_struct_tags : Generated.C13.stanzaTags = some [
+    ("IQ", [("XMLName", "Name", "iq"), ("ID", "string", "id,attr"), ("To", "JID", "to,attr,omitempty"),
+      ("From", "JID", "from,attr,omitempty"),
+      ("Lang", "string", "http://www.w3.org/XML/1998/namespace lang,attr,omitempty"), ("Type", "IQType", "type,attr")]),
+    ("Message", [("XMLName", "Name", "message"), ("ID", "string", "id,attr,omitempty"),
+      ("To", "JID", "to,attr,omitempty"), ("From", "JID", "from,attr,omitempty"),
+      ("Lang", "string", "http://www.w3.org/XML/1998/namespace lang,attr,omitempty"),
+      ("Type", "MessageType", "type,attr,omitempty")]),
+    ("Presence", [("XMLName", "Name", "presence"), ("ID", "string", "id,attr"), ("To", "JID", "to,attr"),
+      ("From", "JID", "from,attr"),
+      ("Lang", "string", "http://www.w3.org/XML/1998/namespace lang,attr,omitempty"),
+      ("Type", "PresenceType", "type,attr,omitempty")])] := by decide
+
+/-- decoding (by reflection) what the standard marshaller prints for a value gives the value
+back, in no namespace: for canonical addresses and a defined type -/
+theorem C13_marshal_decodes (parse : String → Option String) (k : Kind) (x : Stz)
+    (hto : x.to ≠ "" → parse x.to = some x.to) (hfrom : x.from_ ≠ "" → parse x.from_ = some x.from_)
+    (hiq : k = .iq → x.typ ∈ iqTypes) (hmsg : k = .message → x.typ ∈ messageTypes) :
+    reflectNew parse k (marshalName k) (marshalAttrs k x) = some { x with name := marshalName k } := by
+  obtain ⟨nm, id, to, fr, lang, typ⟩ := x
+  simp only at hto hfrom hiq hmsg
+  unfold reflectNew marshalAttrs
+  cases k
+  case iq =>
+    have hne : typ ≠ "" := by
+      intro h; have := hiq rfl; rw [h] at this; simp [iqTypes] at this
+    by_cases h2 : to = "" <;> by_cases h3 : fr = "" <;> by_cases h5 : lang = "" <;>
+      simp [h2, h3, h5, reflectLoop, reflectStep, attr0, langAttr, nsXML, marshalName, Kind.loc, iqTypeText, hne, hto, hfrom]
+  case message =>
+    have hm : msgType typ = typ := by simp [msgType, hmsg rfl]
+    have hne : typ ≠ "" := by
+      intro h; have := hmsg rfl; rw [h] at this; simp [messageTypes] at this
+    by_cases h1 : id = "" <;> by_cases h2 : to = "" <;> by_cases h3 : fr = "" <;> by_cases h5 : lang = "" <;>
+      simp [h1, h2, h3, h5, reflectLoop, reflectStep, attr0, langAttr, nsXML, marshalName, Kind.loc, hm, hne, hto, hfrom]
+  case presence =>
+    by_cases h0 : typ = "" <;> by_cases h2 : to = "" <;> by_cases h3 : fr = "" <;> by_cases h5 : lang = "" <;>
+      simp [h0, h2, h3, h5, reflectLoop, reflectStep, attr0, langAttr, nsXML, marshalName, Kind.loc, hto, hfrom]
+
+/-- decoding (by reflection) the start element of the token path gives the value back, with the
+namespace of its `XMLName` -/
+theorem C13_token_path_decodes (parse : String → Option String) (k : Kind) (x : Stz)
+    (hto : x.to ≠ "" → parse x.to = some x.to) (hfrom : x.from_ ≠ "" → parse x.from_ = some x.from_)
+    (hiq : k = .iq → x.typ ∈ iqTypes) (hmsg : k = .message → x.typ ∈ messageTypes) :
+    reflectNew parse k (startName k x) (startAttrs k x) = some { x with name := startName k x } := by
+  obtain ⟨nm, id, to, fr, lang, typ⟩ := x
+  simp only at hto hfrom hiq hmsg
+  unfold reflectNew startAttrs
+  cases k
+  case iq =>
+    by_cases h2 : to = "" <;> by_cases h3 : fr = "" <;> by_cases h4 : id = "" <;> by_cases h5 : lang = "" <;>
+      simp [h2, h3, h4, h5, reflectLoop, reflectStep, attr0, langAttr, nsXML, startName, Kind.loc, hto, hfrom]
+  case message =>
+    have hm : msgType typ = typ := by simp [msgType, hmsg rfl]
+    by_cases h2 : to = "" <;> by_cases h3 : fr = "" <;> by_cases h4 : id = "" <;> by_cases h5 : lang = "" <;>
+      simp [h2, h3, h4, h5, reflectLoop, reflectStep, attr0, langAttr, nsXML, startName, Kind.loc, hm, hto, hfrom]
+  case presence =>
+    by_cases h1 : typ = "" <;> by_cases h2 : to = "" <;> by_cases h3 : fr = "" <;> by_cases h4 : id = "" <;>
+      by_cases h5 : lang = "" <;>
+      simp [h1, h2, h3, h4, h5, reflectLoop, reflectStep, attr0, langAttr, nsXML, startName, Kind.loc, hto, hfrom]
+
+/-- **paths agree**: the standard marshaller and `StartElement()`/`Wrap` decode to the same id,
+addresses, language and type; the only field that can differ is the namespace of `XMLName` … -/
+theorem C13_paths_agree (parse : String → Option String) (k : Kind) (x : Stz)
+    (hto : x.to ≠ "" → parse x.to = some x.to) (hfrom : x.from_ ≠ "" → parse x.from_ = some x.from_)
+    (hiq : k = .iq → x.typ ∈ iqTypes) (hmsg : k = .message → x.typ ∈ messageTypes) :
+    (reflectNew parse k (marshalName k) (marshalAttrs k x)).map (fun v => { v with name := ⟨"", v.name.loc⟩ }) =
+    (reflectNew parse k (startName k x) (startAttrs k x)).map (fun v => { v with name := ⟨"", v.name.loc⟩ }) := by
+  rw [C13_marshal_decodes parse k x hto hfrom hiq hmsg, C13_token_path_decodes parse k x hto hfrom hiq hmsg]
+  simp [marshalName, startName]
+
+/-- … and it does differ as soon as the value has one (the known finding `paths-agree`): the
+marshaller prints the element in no namespace, the token path keeps `XMLName.Space` -/
+theorem C13_paths_agree_fails_namespace (parse : String → Option String) (k : Kind) (x : Stz)
+    (hto : x.to ≠ "" → parse x.to = some x.to) (hfrom : x.from_ ≠ "" → parse x.from_ = some x.from_)
+    (hiq : k = .iq → x.typ ∈ iqTypes) (hmsg : k = .message → x.typ ∈ messageTypes) (hns : x.name.space ≠ "") :
+    reflectNew parse k (marshalName k) (marshalAttrs k x) ≠ reflectNew parse k (startName k x) (startAttrs k x) := by
+  rw [C13_marshal_decodes parse k x hto hfrom hiq hmsg, C13_token_path_decodes parse k x hto hfrom hiq hmsg]
+  intro h
+  have := congrArg (fun o => o.map (·.name.space)) h
+  simp [marshalName, startName] at this
+  exact hns this
+
+example : reflectNew (fun s => some s) .iq (marshalName .iq)
+    (marshalAttrs .iq ⟨⟨"jabber:server", "iq"⟩, "i", "", "a@b", "", "get"⟩) =
+    some ⟨⟨"", "iq"⟩, "i", "", "a@b", "", "get"⟩ := by decide
+
 /-! ### Wrapping helpers -/
 
 /-- `Wrap` produces a stanza of the right kind around the unchanged payload … -/
@@ -201,6 +294,17 @@ theorem C13_stanza_error_roundtrip (parse : String → Option String) (e : SErr)
   rw [hfil]
   by_cases ht : e.typ = "" <;> by_cases hb : e.by_ = "" <;>
     simp [errAttrs, ht, hb, lastAttr, attr0, hby]
+
+/-- **exactly the empty texts are dropped**: a text survives the round trip iff it is not the
+empty string — white space only texts (blanks, line breaks, no-break space) are kept, in every
+language -/
+theorem C13_only_empty_text_dropped (parse : String → Option String) (e : SErr)
+    (hby : e.by_ ≠ "" → parse e.by_ = some e.by_) (hc : condOf e ≠ "text") (p : String × String) :
+    (∃ d, decodeErr parse (errTokens e []) = some d ∧ (p ∈ d.texts ↔ (p ∈ e.texts ∧ p.2 ≠ ""))) := by
+  refine ⟨_, C13_stanza_error_roundtrip parse e hby hc, ?_⟩
+  simp [List.mem_filter, mem_sortTexts]
+
+example : (" ", "\n\t") ∈ ((sortTexts [("", " "), (" ", "\n\t"), ("en", "")]).filter (·.2 ≠ "")) := by decide
 
 /-- names of decoded payload children are the payload's element names: none is in `ns` -/
 theorem children_foreign {cs : List Child} {es : List Elem} (hn : cs.map (·.name) = es.map (·.name))
